@@ -165,8 +165,7 @@ def diff_results(ref, got):
     return worst
 
 
-TIE_CASE = {"ties": "tied-scores-row-order-depends-on-chunking",
-            "tie-winner": "tied-scores-winner-depends-on-chunking"}
+TIE_CASE = {"ties": "tied-scores-row-order-differs", "tie-winner": "tied-scores-winner-differs"}
 
 
 class ClassCheck(Check):
@@ -479,8 +478,15 @@ def _brew_once(df, cfg, with_files=True):
     global _SLEEPER
     brew_mod = importlib.import_module("mokapot.brew")
     import mokapot.confidence as conf
+    pin_mod = importlib.import_module("mokapot.parsers.pin")
+    saved_rows = pin_mod.get_rows_from_dataframe
     if cfg.get("sleep") is not None:
         _SLEEPER = _Sleeper(cfg["sleep"])
+
+        def slow_rows(*a, **k):           # the chunk-reading tasks of parse_in_chunks finish in perturbed order too
+            _SLEEPER.nap()
+            return saved_rows(*a, **k)
+        pin_mod.get_rows_from_dataframe = slow_rows
     try:
         with scratch("c05b_") as d:
             ds = write_input(df, d, cfg["fmt"])
@@ -502,6 +508,8 @@ def _brew_once(df, cfg, with_files=True):
             return res
     except BaseException as e:
         return {"error": e if isinstance(e, Exception) else RuntimeError(repr(e))}
+    finally:
+        pin_mod.get_rows_from_dataframe = saved_rows
 
 
 def run_brew(cfg):
@@ -593,7 +601,7 @@ def check_thread_timing(tier, seed):
     ck = ClassCheck("thread_timing", "mokapot.brew.brew (joblib threads), mokapot.confidence.create_sorted_file_iterator",
                "%d runs: brew + assign_confidence with max_workers 4 and 2 on %d PSMs where every estimator fit / "
                "decision_function (logistic regression) resp. Model.fit / Model.predict (PercolatorModel) sleeps "
-               "U(0,30ms) drawn from %d delay seeds; plus %d assign_confidence runs (chunk 7, 4 workers) whose "
+               "U(0,30ms), as do the chunk-reading tasks of parse_in_chunks, drawn from %d delay seeds; plus %d assign_confidence runs (chunk 7, 4 workers) whose "
                "chunk-writer tasks sleep U(0,20ms); reference of each run: same format and constants, 1 worker, no "
                "delays"
                % (len(cfgs), n, reps, 2 * reps),
